@@ -401,9 +401,14 @@ class SettingsMachine(RuleBasedStateMachine):
         except Exception as e:  # noqa
             inner = _is_from_repo(e)
             if inner is None:
-                raise
-            msg = "unexpected %s escaped evo (%s:%s): %s" % (type(e).__name__, inner[0], inner[1], str(e)[:300])
-            tags = {"observed": "unexpected_exception", "exc_type": type(e).__name__, "evo_func": inner[1]}
+                if not isinstance(e, (KeyError, IndexError, ValueError, TypeError, AttributeError, ZeroDivisionError)):
+                    raise
+                # the model could not interpret what evo handed back (see runner.execute_case)
+                msg = "evo's output could not be interpreted by the check (%s: %s) - missing/malformed key, array or value" % (type(e).__name__, str(e)[:200])
+                tags = {"observed": "malformed_output", "exc_type": type(e).__name__}
+            else:
+                msg = "unexpected %s escaped evo (%s:%s): %s" % (type(e).__name__, inner[0], inner[1], str(e)[:300])
+                tags = {"observed": "unexpected_exception", "exc_type": type(e).__name__, "evo_func": inner[1]}
         kf = findings.match(cls.vf_prop, cls.vf_sub.name, tags)
         if kf:
             cls.vf_rep.known[kf] = cls.vf_rep.known.get(kf, 0) + 1
